@@ -26,3 +26,55 @@ Theorem C18_interface_from_program : forall st fs0 outs m fs',
         \/ exists k r n doc, lookup k st = Some r /\ r_node r = AInput n (p_name p) doc).
 Proof. exact compile_inputs_parties. Qed.
 Print Assumptions C18_interface_from_program.
+
+(* ---- the program-level statement: for EVERY surface program (any number of statements, inputs,
+   parties and outputs) on which abstract execution under the audit classes regenerated from
+   audit/abstract.py yields a signature and the trace + compile model over the scalar rules regenerated
+   from nada_types/scalar_types.py yields a MIR: the outputs are the same, in the same order, with the
+   same secrecy type; every input the MIR lists is in the signature with the same owner and type; every
+   party the MIR lists receives an output or owns a listed input. *)
+From NadaV.Gen Require GenScalar GenAbstract.
+From NadaV.Model Require Import AbsRules SigModel.
+From NadaV.Spec Require Import SigSpec.
+From NadaV.Proofs Require Import C18Rules C18Program.
+Open Scope string_scope.
+
+Theorem C18_signature_agrees_with_mir : forall parties p m sg,
+  run GenScalar.G p = Ok m -> abs_sig GenAbstract.GA parties p = Some sg ->
+  map spell (sg_outputs sg) = map (fun o => (o_name o, o_party o, ty_name (o_ty o))) (m_outputs m)
+  /\ (forall i, In i (m_inputs m) -> In (i_name i, i_party i, ty_name (i_ty i)) (map spell (sg_inputs sg)))
+  /\ (forall q, In q (m_parties m) ->
+        In (p_name q) (map out_party (p_outs p)) \/ In (p_name q) (map t_party (sg_inputs sg))).
+Proof. exact (program_agrees GenScalar.G GenAbstract.GA bin_spec_all abs_bin_needs_ints ifelse_spec). Qed.
+Print Assumptions C18_signature_agrees_with_mir.
+
+(* what the signature lists beyond the MIR is unused: every input reference among the operations the MIR
+   emits is in the MIR's input list (any program, any store), so an input that the signature lists and the MIR
+   does not is referenced by no emitted operation — and by C09 the emitted operations are exactly those the
+   outputs reach *)
+Theorem C18_unlisted_inputs_are_unused : forall G p m,
+  run G p = Ok m ->
+  forall e n, In e (m_ops m) -> e_op e = MInputRef n -> In n (map i_name (m_inputs m)).
+Proof. exact run_inputs_complete. Qed.
+Print Assumptions C18_unlisted_inputs_are_unused.
+
+(* the premises are satisfiable: a program with a literal, two inputs of different owners, arithmetic, a
+   comparison, an if_else and two outputs *)
+Definition c18_example : program :=
+  {| p_stmts := [SLet "a" (RInput "a" "P0" "" (IScalar (MSecret, BInt)));
+                 SLet "b" (RInput "b" "P1" "" (IScalar (MPublic, BInt)));
+                 SLet "u" (RInput "unused" "P2" "" (IScalar (MPublic, BInt)));
+                 SLet "k" (RLit BInt 3);
+                 SLet "s" (RBin OMul "k" "b");
+                 SLet "c" (RBin OLt "b" "k");
+                 SLet "r" (RIfElse "c" "a" "s")];
+     p_outs := [{| out_name := "r"; out_party := "P1"; out_var := "r" |};
+                {| out_name := "s"; out_party := "P0"; out_var := "s" |}] |}.
+Example C18_nonvacuous :
+  (exists m, run GenScalar.G c18_example = Ok m /\ List.length (m_inputs m) = 2%nat)
+  /\ exists sg, abs_sig GenAbstract.GA ["P0"; "P1"; "P2"] c18_example = Some sg
+                /\ sg_outputs sg = [("r", "P1", "SecretInteger"); ("s", "P0", "PublicInteger")]
+                /\ List.length (sg_inputs sg) = 3%nat.
+Proof.
+  split; [eexists; split; [vm_compute; reflexivity | reflexivity] | eexists; split; [vm_compute; reflexivity | split; reflexivity]].
+Qed.
